@@ -358,6 +358,7 @@ def record_traces(n, length, seed, nkeys=6, only=None):
         cfg = {"m": rng.randint(1, 5), "lru": rng.random() < 0.5, "om": rng.choice([0, 0, 1, 2])}
         c = drv.make(cfg)
         evs = []
+        twin = None
         for i in range(length):
             n_ = rng.choice(["getitem", "getitem", "get", "setdefault", "setitem", "setitem", "setitem", "delitem",
                              "pop", "popitem", "clear", "update", "ior", "ctor", "copy", "contains", "len",
@@ -376,6 +377,17 @@ def record_traces(n, length, seed, nkeys=6, only=None):
                 op["arg"] = [{"k": rng.randint(1, nkeys), "v": rng.randint(1, 4)} for _ in range(rng.randint(0, 4))]
                 variant = rng.choice(drv.variants(op))
             c, got = drv.step(c, op, variant)
+            forked = False
+            if n_ == "copy" and twin is None and got["r"]["e"] == "ok" and rng.random() < 0.6:
+                # a second cache that lives on: the copy, or (history continuing on the copy) the source
+                try:
+                    c3 = c.copy()
+                    c3.__dict__["_verif"] = c.__dict__["_verif"]
+                    # (copy() is not promised to carry on_miss over: the history moves to the copy only without one)
+                    twin, c = (c3, c) if rng.random() < 0.5 or cfg["om"] else (c, c3)
+                    forked = True
+                except Exception:
+                    pass
             ev = {"op": op, "variant": variant or "", "r": got["r"], "dh": got["dh"], "dm": got["dm"], "ds": got["ds"],
                   "calls": got["calls"],
                   "items": sorted([drv.conc.dk(k_), drv.conc.dv(v_)] for k_, v_ in dict.items(c)),
@@ -385,9 +397,21 @@ def record_traces(n, length, seed, nkeys=6, only=None):
                 ev["copy_ok"] = bool(cp["same_class"] and cp["m"] == cfg["m"] and cp["distinct_object"])
                 ev["copy_items"] = cp["items"] if isinstance(cp["items"], list) else [[-1, -1]]
                 ev["copy_order"] = cp["order"] if isinstance(cp["order"], list) and all(isinstance(x, int) for x in cp["order"]) else [-1]
+            if forked:
+                ev["fork"] = True
             evs.append(ev)
             if got["r"]["e"] == "timeout":
                 break
+        if twin is not None:
+            try:
+                titems = sorted([drv.conc.dk(k_), drv.conc.dv(v_)] for k_, v_ in dict.items(twin))
+                torder = drv.probe(twin, cfg["m"])
+            except Exception:
+                titems, torder = [[-1, -1]], [-1]
+            evs.append({"op": {"op": "twin_probe", "k": 0, "v": 0, "d": 0, "arg": []}, "variant": "", "r": {"e": "ok", "v": []},
+                        "dh": 0, "dm": 0, "ds": 0, "calls": [],
+                        "order": torder if isinstance(torder, list) and all(isinstance(x, int) for x in torder) else [-1],
+                        "items": titems, "len": len(titems)})
         order = drv.probe(c, cfg["m"])
         evs.append({"op": {"op": "probe", "k": 0, "v": 0, "d": 0, "arg": []}, "variant": "", "r": {"e": "ok", "v": []},
                     "dh": 0, "dm": 0, "ds": 0, "calls": [],
